@@ -15,8 +15,8 @@ def tier(ctx, quick, thorough):
 def buffer_model(ctx):
     """MCBuffer: exhaustive buffer state machine, every transition replayed"""
     consts = tier(ctx,
-                  dict(MaxOps=3, MaxPay=2, Alpha="A6", ByteArgs="QByteArgs", RuneArgs="QRuneArgs", RawFrags="QRawFrags"),
-                  dict(MaxOps=4, MaxPay=2, Alpha="A6", ByteArgs="TByteArgs", RuneArgs="TRuneArgs", RawFrags="TRawFrags"))
+                  dict(MaxOps=3, MaxPay=2, Alpha="A6", ByteArgs="QByteArgs", RuneArgs="QRuneArgs", RawFrags="QRawFrags", Spicy="QSpicy"),
+                  dict(MaxOps=4, MaxPay=2, Alpha="A6", ByteArgs="TByteArgs", RuneArgs="TRuneArgs", RawFrags="TRawFrags", Spicy="TSpicy"))
     ctx.tlc_replay("MCBuffer", "Buffer.cfg", ["buffer-replay", "-prop", ctx.prop], consts=consts)
 
 
@@ -62,7 +62,8 @@ def c07(ctx):
 
 
 def c10(ctx):
-    ctx.tlc_replay("MCEscape", "Escape.cfg", ["escape-replay"], consts=dict(MaxTok=tier(ctx, 4, 5)))
+    ctx.tlc_replay("MCEscape", "Escape.cfg", ["escape-replay", "-prop", "C10"], consts=dict(MaxTok=tier(ctx, 4, 5)))
+    buffer_model(ctx)
     n, tracen = tier(ctx, (20000, 5000), (300000, 40000))
     trace = ctx.work + "/escape.ndjson"
     ctx.harness(["escape-drive", "-n", str(n), "-trace", trace, "-tracen", str(tracen)])
@@ -87,7 +88,7 @@ def printer_control_f3(ctx):
 
 
 def c02(ctx):
-    for sl in tier(ctx, ["qcls", "wrap"], ["cls", "wrap", "panic", "smoke"]):
+    for sl in tier(ctx, ["qcls", "wrap", "smoke"], ["cls", "wrap", "panic", "smoke"]):
         printer_slice(ctx, sl)
 
 
@@ -238,11 +239,17 @@ def c14(ctx):
     ctx.tlc_replay("MCFwd", "Fwd.cfg", ["fwd-replay"], consts=dict(Verbs=tier(ctx, "FewVerbs", "AllVerbs")))
 
 
+def escape_model(ctx):
+    ctx.tlc_replay("MCEscape", "Escape.cfg", ["escape-replay", "-prop", ctx.prop], consts=dict(MaxTok=tier(ctx, 4, 5)))
+
+
 def c01(ctx):
     buffer_model(ctx)
     buffer_traces(ctx)
     repo_suite_traces(ctx)
+    escape_model(ctx)
     printer_slice(ctx, tier(ctx, "qbytes", "bytes"))
+    printer_slice(ctx, tier(ctx, "qcompose", "compose"), module="MCCompose", cfg="Compose.cfg")
     if ctx.tier == "thorough":
         printer_slice(ctx, "smoke")
         printer_slice(ctx, "panic")
@@ -252,7 +259,9 @@ def c03(ctx):
     buffer_model(ctx)
     buffer_traces(ctx)
     repo_suite_traces(ctx)
+    escape_model(ctx)
     printer_slice(ctx, tier(ctx, "qbytes", "bytes"))
+    printer_slice(ctx, tier(ctx, "qcompose", "compose"), module="MCCompose", cfg="Compose.cfg")
     if ctx.tier == "thorough":
         printer_slice(ctx, "smoke")
 
